@@ -31,7 +31,10 @@ package server
 
 //@ func makeRequestWithRetry
 //@   modifies requestURL.Scheme, headers[all], regOpts.Token
-//@   assert-at return #6 : resp != nil && resp.StatusCode < 400 && resp.StatusCode != 401    -- images.go:729, the only successful return (ordinals: see ./check C03 --list)
+//@   ensures result.1 == nil ==> result.0 != nil && result.0.StatusCode < 400 && result.0.StatusCode != 401
+// the two sentinel returns: os.ErrNotExist (library) and errUnauthorized (package-level errors.New value) are non-nil
+//@   assume-at return #3 : result.1 != nil      -- images.go:720 returns the library sentinel os.ErrNotExist
+//@   assume-at return #8 : errUnauthorized != nil      -- images.go:733, assigned once at package init, never reassigned
 
 // ---- trusted library contracts used by the pull path (only frames: what a call may change in
 // ---- memory the verified functions can see; network/file-system effects are not modelled).
@@ -55,19 +58,38 @@ package server
 //@ extern func net/http.(*Client).Do
 //@   modifies nothing
 //@   ensures result.1 == nil ==> result.0 != nil
+//@ extern func net/http.(Header).Add
+//@   modifies this[all]
+//@ extern func auth.Sign
+//@   modifies nothing
+//@ extern func encoding/json.Unmarshal
+//@   modifies boxed(v)
+//@ extern func encoding/json.NewDecoder
+//@   modifies nothing
+//@ extern func encoding/json.(*Decoder).Decode
+//@   modifies boxed(v)
+//@ extern func encoding/json.NewEncoder
+//@   modifies nothing
+//@ extern func encoding/json.(*Encoder).Encode
+//@   modifies nothing
 // getAuthorizationToken (server/auth.go) signs a fresh request with the local key and calls
 // makeRequest with fresh headers and fresh registryOptions: nothing of the caller is written.
-// Trusted here (body not under contract).
-//@ extern func getAuthorizationToken
+//@ func getAuthorizationToken
 //@   modifies nothing
+//@ extern func auth.NewNonce
+//@   modifies nothing
+//@ func (registryChallenge).URL
+//@   assume-at after call Parse #1 : result.1 == nil ==> result.0 != nil && fresh(result.0)     -- net/url.Parse returns a new URL
+//@   modifies nothing
+//@   ensures result.1 == nil ==> result.0 != nil && fresh(result.0)
 
 // ---- blobDownload.Prepare: part layout computed from an arbitrary Content-Length ----
 // writePart only writes the part's JSON record to disk.
-//@ extern func (*blobDownload).writePart
+//@ func (*blobDownload).writePart
 //@   modifies nothing
-//@ extern func (*blobDownloadPart).Name
+//@ func (*blobDownloadPart).Name
 //@   modifies nothing
-//@ extern func (*blobDownload).readPart
+//@ func (*blobDownload).readPart
 //@   modifies nothing
 //@   ensures result.1 == nil ==> result.0 != nil && fresh(result.0)
 //@ extern func path/filepath.Glob
@@ -132,9 +154,12 @@ package server
 // Wait: b.Digest is written only by the composite literal in downloadBlob. The loop invariant cannot
 // be kept by govc: the call through the func-typed parameter fn forgets the whole heap (no contract
 // key for such a call) - listed as undecided; the slice b.Digest[7:19] itself is discharged from it.
-//@ extern func (*blobDownload).acquire
+//@ func (*blobDownload).acquire
 //@   modifies nothing
-//@ extern func (*blobDownload).release
+// b.CancelFunc is the cancel function of the download's own context (set in run)
+//@ extern func (blobDownload).CancelFunc
+//@   modifies nothing
+//@ func (*blobDownload).release
 //@   modifies nothing
 //@ func (*blobDownload).Wait
 //@   requires len(b.Digest) >= 19
@@ -186,18 +211,18 @@ package server
 //@   loop 2 invariant 0 <= wk() && wk() <= rangeindex ==> ghost_wdl == 1
 //@   loop 2 invariant ghost_wfresh == 1 ==> 0 <= wk() && wk() <= rangeindex
 // a layer that this call downloaded is not marked "skip verification"
-//@   loop 2 invariant ghost_wfresh == 1 ==> !skipVerify[layers[wk()].Digest]
+//@   loop 2 invariant ghost_wfresh == 1 ==> has(skipVerify, layers[wk()].Digest) && !skipVerify[layers[wk()].Digest]
 // Frame of the call fn("verifying sha256 digest") between the two loops: the fact is proved just
 // before it (at the delete builtin that follows loop 2) and assumed again just after it (at the len
 // builtin that starts loop 3). fn is PullModel's func-typed parameter; govc has no contract key for a
 // call through it and forgets the whole heap there, although skipVerify and layers are fresh locals
 // that are never passed out of PullModel (explicit assumption A-fn in props/C03.json).
-//@   assert-at call delete #2 : ghost_wfresh == 1 ==> !skipVerify[layers[wk()].Digest]
-//@   assume-at call len #3 : ghost_wfresh == 1 ==> !skipVerify[layers[wk()].Digest]     -- A-fn: the progress callback does not write PullModel's locals
+//@   assert-at call delete #2 : ghost_wfresh == 1 ==> has(skipVerify, layers[wk()].Digest) && !skipVerify[layers[wk()].Digest]
+//@   assume-at call len #3 : ghost_wfresh == 1 ==> has(skipVerify, layers[wk()].Digest) && !skipVerify[layers[wk()].Digest]     -- A-fn: the progress callback does not write PullModel's locals
 //@   loop 3 invariant ghost_wrm == 0 && ghost_rm == 0 && ghost_mm == 0
 //@   loop 3 invariant 0 <= wk() && wk() < len(layers) ==> ghost_wdl == 1
 //@   loop 3 invariant ghost_wfresh == 1 ==> 0 <= wk() && wk() < len(layers)
-//@   loop 3 invariant ghost_wfresh == 1 ==> !skipVerify[layers[wk()].Digest]
+//@   loop 3 invariant ghost_wfresh == 1 ==> has(skipVerify, layers[wk()].Digest) && !skipVerify[layers[wk()].Digest]
 //@   loop 3 invariant ghost_wfresh == 1 && wk() <= rangeindex ==> ghost_wver == 1
 // a digest mismatch removes the blob before the error is returned (return after the verify failure)
 //@   assert-at return #5 : ghost_mm == 1 ==> ghost_rm == 1
